@@ -125,13 +125,14 @@ Record sig_case := mksc {
   sc_mac : list ((bytes * bytes) * bytes);         (* (key, content) |-> HmacBase64 *)
   sc_sha : list (bytes * bytes);
   sc_url : option (bytes * bytes);                 (* url.Parse of the X-Request-Uri value *)
-  sc_decbody : bool;                               (* decryptBody(key, r) == nil *)
+  sc_decbody : dec_res;                            (* decryptBody(key, r): nil / error / panic *)
   (* the request as its maker describes it (for the Spec) *)
   sc_q : signed_request;
   sc_enc : bool;                                   (* announced type=1 and a body is present *)
   sc_skip_spec : bool;                             (* header shape the statement does not speak about *)
   (* observed *)
-  sc_status : Z; sc_ran : bool; sc_hdr : N         (* Signature response header: 0 none 1 wrong-time 2 invalid *)
+  sc_status : Z; sc_ran : bool; sc_hdr : N;        (* Signature response header: 0 none 1 wrong-time 2 invalid *)
+  sc_panic : bool                                  (* the middleware panicked *)
 }.
 
 Definition opt_bytes_tab (t : list (bytes * option bytes)) (k : bytes) : option bytes :=
@@ -146,7 +147,8 @@ Definition hdr_code (h : sig_hdr) : N :=
   match h with SigNone => 0 | SigWrongTime => 1 | SigInvalid => 2 end%N.
 
 Definition sout_eqb (c : sig_case) (o : sout) : bool :=
-  (s_status o =? sc_status c) && Bool.eqb (s_ran o) (sc_ran c) && (hdr_code (s_hdr o) =? sc_hdr c)%N.
+  Bool.eqb (s_panic o) (sc_panic c) && Bool.eqb (s_ran o) (sc_ran c) &&
+  (if sc_panic c then true else (s_status o =? sc_status c) && (hdr_code (s_hdr o) =? sc_hdr c)%N).
 
 Definition sig_gate (c : sig_case) (now : Z) : sout :=
   content_security_gate (sc_decryptors c) (fun _ s => opt_bytes_tab (sc_rsa c) s) (opt_bytes_tab (sc_b64 c))
@@ -167,12 +169,13 @@ Definition sig_spec_at (c : sig_case) (now : Z) : bool :=
     let adm := sig_accept (mac_of c) (sha_of c) (sc_tol c) now (sc_q c) in
     if adm then
       (* accepted: the handler runs (behind the body decryption when the request announces one) *)
-      if sc_enc c then Bool.eqb (sc_ran c) (sc_decbody c) else sc_ran c
+      if sc_enc c then Bool.eqb (sc_ran c) (match sc_decbody c with DecOk => true | _ => false end) else sc_ran c
     else if sc_strict c then negb (sc_ran c) && (sc_status c =? 403)
     else sc_ran c.
 
+(* a gate that panics neither admits nor refuses: always a violation *)
 Definition sig_spec_ok (c : sig_case) : bool :=
-  sc_skip_spec c || sig_spec_at c (sc_now0 c) || sig_spec_at c (sc_now1 c).
+  negb (sc_panic c) && (sc_skip_spec c || sig_spec_at c (sc_now0 c) || sig_spec_at c (sc_now1 c)).
 
 (* ------------------------------------------------------------------ RPC histories *)
 Record rstep := mkrs {
